@@ -13,15 +13,11 @@ Proof. unfold lo8; intros; lia. Qed.
 Lemma hi8_range : forall c, 0 <= hi8 c <= 255.
 Proof. unfold hi8; intros; lia. Qed.
 
-Lemma bump_ok : forall maxv c, snd (bump maxv c) = false -> c < maxv /\ fst (bump maxv c) = c + 1.
+Lemma next_id_some : forall maxv c c', next_id maxv c = Some c' -> c < maxv /\ c' = c + 1.
 Proof.
-  unfold bump; intros maxv c H. destruct (c <? maxv) eqn:E; cbn in *; [|discriminate].
-  apply Z.ltb_lt in E. auto.
+  unfold next_id; intros maxv c c' H. destruct (c <? maxv) eqn:E; [|discriminate].
+  apply Z.ltb_lt in E. inversion H; auto.
 Qed.
-Lemma bump_below : forall maxv c, c < maxv -> bump maxv c = (c + 1, false).
-Proof. unfold bump; intros. apply Z.ltb_lt in H. rewrite H. reflexivity. Qed.
-Lemma panics_flag : forall pr cv, panics pr cv = true -> snd cv = true.
-Proof. intros [|] cv; cbn; auto; discriminate. Qed.
 
 (* ------------------------------------------------------------------ generic list facts *)
 Lemma nodup_app : forall {A} (a b : list A),
